@@ -209,6 +209,23 @@ def run(ctx):
         outs.append(o1)
         if o1 == "hang" or o1.startswith("crash") or "panic" in o1:
             bad_low += 1
+    # structurally hostile JPEG reconstruction data (every field of the jbrd header damaged in turn while
+    # the header still parses) on synthetic transcodes: reconstruct_jpeg answers Ok or Err
+    hl = fl.hostile_jbrd_lines(rng, 1500 if q else 40000)
+    for l, o in zip(hl, run_lines_robust([ctx.harness_bin("c17e")], hl, per_line_timeout=30, batch=200)):
+        o = o or "crash"
+        w = o.split()
+        ctx.case(("hjbrd", l), nontrivial=w[0] in ("ok", "err", "status"))
+        ctx.count("input:hostile-jbrd")
+        ctx.count("hostile-jbrd:" + (w[0] if w[0] in ("ok", "err", "status") else "FAILED"))
+        for d in (w[-1].split("+") if w[0] in ("ok", "err", "status") else []):
+            ctx.count("hostile-jbrd-damage:" + d)
+        if w[0] not in ("ok", "err", "status"):
+            m = re.match(r"panic ([^_ ]+\.rs:\d+)", o)
+            key = "panic:" + m.group(1) if m else w[0]
+            ctx.violation("public-call-panicked-or-hung", {"input": "hostile-jbrd", "result": o[:400]},
+                          {"lines": [l], "how": "echo '<line>' | harness/target/debug/c17e (damage: harness/src/synth.rs hostile())"},
+                          key=key)
     for (label, data, script), o, lim_used in zip(meta, outs, limits):
         o = o or "crash"
         words = o.split()
